@@ -254,26 +254,10 @@ def gen_parse_table():
 
     # --- parse_rfc2822
     b = fn_body(src, 'parse_rfc2822')
-<<<<<<< HEAD
-<<<<<<< HEAD
-    nums = re.findall(r'parsed\.set_(\w+)\(try_consume!\(scan::number\((\w+(?:\.trim_start\(\))?), (\d+), (\d+)\)\)\)\?;', b)
-    want = [('day', 's'), ('hour', 's'), ('minute', 's'), ('second', 's_')]
-    # the seconds are read from s_ or, with fixes/C11-second-colon-space.diff, from s_.trim_start()
-    second_trim = len(nums) == 4 and nums[3][1] == 's_.trim_start()'
-    if [(n[0], n[1].replace('.trim_start()', '') if n[0] == 'second' else n[1]) for n in nums] != want:
-=======
     nums = re.findall(r'parsed\.set_(\w+)\(try_consume!\(scan::number\(([\w.()]+), (\d+), (\d+)\)\)\)\?;', b)
     want = [('day', ('s',)), ('hour', ('s',)), ('minute', ('s',)), ('second', ('s_', 's_.trim_start()'))]
     if [n[0] for n in nums] != [w[0] for w in want] or any(n[1] not in w[1] for n, w in zip(nums, want)):
->>>>>>> wt-C13
-=======
-    nums = re.findall(r'parsed\.set_(\w+)\(try_consume!\(scan::number\(([\w.()]+), (\d+), (\d+)\)\)\)\?;', b)
-    # repaired (434a887): white space is skipped before the seconds as well
-    want = [('day', 's'), ('hour', 's'), ('minute', 's'), ('second', 's_.trim_start()')]
-    if [(n[0], n[1]) for n in nums] != want:
->>>>>>> wt-C09
         raise TranslateError('parse_rfc2822: number fields changed: %r' % nums)
-    out += 'Definition P2822_SECOND_TRIM : bool := %s.\n' % ('true' if second_trim else 'false')
     out += '(* parse_rfc2822: (min, max) digits of day, hour, minute, second; year *)\n'
     for n in nums:
         out += 'Definition P2822_%s : Z * Z := (%s, %s).\n' % (n[0].upper(), n[2], n[3])
